@@ -1,0 +1,86 @@
+//! Verification hooks (cargo feature `verif-hooks`, off by default).
+//!
+//! Nothing in this module exists unless the feature is enabled. The hooks let an
+//! external controller observe, crash, pause and re-clock the persistence code:
+//!
+//! - `SGV_TRACE=<file>`: every named point appends `<pid> <name>` to the file.
+//! - `SGV_CRASH_AT=<name>[#k]`: the process aborts the k-th time (default 1st)
+//!   it reaches the named point.
+//! - `SGV_SYNC_DIR=<dir>` (+ `SGV_TAG=<tag>`): at every named point (or only at
+//!   those whose name starts with one of the comma-separated prefixes in
+//!   `SGV_SYNC_POINTS`) the process creates `<dir>/<tag>.<seq>.<name>.at` and
+//!   blocks until `<dir>/<tag>.<seq>.go` exists.
+//! - `SGV_NOW=<unix seconds>`: overrides the wall clock.
+//! - `SGV_LOCK_TIMEOUT_MS=<ms>`: overrides the lock time-out.
+
+use std::io::Write;
+use std::sync::atomic::{AtomicU64, Ordering};
+
+static SEQ: AtomicU64 = AtomicU64::new(0);
+static CRASH_HITS: AtomicU64 = AtomicU64::new(0);
+
+/// Wall-clock override (`SGV_NOW`), in Unix seconds.
+#[must_use]
+pub fn now_override() -> Option<u64> {
+    std::env::var("SGV_NOW").ok()?.trim().parse().ok()
+}
+
+/// Lock time-out override (`SGV_LOCK_TIMEOUT_MS`).
+#[must_use]
+pub fn lock_timeout_ms(default_ms: u64) -> u64 {
+    std::env::var("SGV_LOCK_TIMEOUT_MS")
+        .ok()
+        .and_then(|v| v.trim().parse().ok())
+        .unwrap_or(default_ms)
+}
+
+fn trace(name: &str) {
+    if let Ok(path) = std::env::var("SGV_TRACE")
+        && let Ok(mut f) = std::fs::OpenOptions::new()
+            .create(true)
+            .append(true)
+            .open(path)
+    {
+        let _ = writeln!(f, "{} {name}", std::process::id());
+    }
+}
+
+/// Trace-only point (never blocks, never crashes).
+pub fn note(name: &str) {
+    trace(name);
+}
+
+/// Named crash / sync point.
+pub fn point(name: &str) {
+    trace(name);
+
+    if let Ok(spec) = std::env::var("SGV_CRASH_AT") {
+        let (want, nth) = match spec.split_once('#') {
+            Some((n, k)) => (n.to_string(), k.parse::<u64>().unwrap_or(1)),
+            None => (spec.clone(), 1),
+        };
+        if want == name {
+            let hit = CRASH_HITS.fetch_add(1, Ordering::SeqCst) + 1;
+            if hit == nth {
+                // SIGKILL-like: no destructors, no buffered output flush.
+                std::process::abort();
+            }
+        }
+    }
+
+    if let Ok(dir) = std::env::var("SGV_SYNC_DIR") {
+        if let Ok(filter) = std::env::var("SGV_SYNC_POINTS")
+            && !filter.split(',').any(|p| !p.is_empty() && name.starts_with(p))
+        {
+            return;
+        }
+        let tag = std::env::var("SGV_TAG").unwrap_or_else(|_| std::process::id().to_string());
+        let seq = SEQ.fetch_add(1, Ordering::SeqCst);
+        let at = format!("{dir}/{tag}.{seq}.{name}.at");
+        let go = format!("{dir}/{tag}.{seq}.go");
+        let _ = std::fs::write(&at, b"");
+        while !std::path::Path::new(&go).exists() {
+            std::thread::sleep(std::time::Duration::from_millis(1));
+        }
+    }
+}
